@@ -738,22 +738,32 @@ func (fr *Frame) runDefers(st *State) {
 		rest.Guard = And(st.Guard, Not(d.guard))
 		sig := d.call.Signature()
 		var rt types.Type = sig.Results()
+		// `at call` clauses of the enclosing contract apply to a deferred call where it runs
+		fr.atCall(d.instr, d.call, branch, false, nil, nil)
+		savedPre := fr.preCall
+		fr.preCall = nil
+		if fr.con != nil && len(fr.con.AtCalls) > 0 {
+			fr.preCall = branch.clone()
+		}
+		var res Value
 		if d.call.IsInvoke() {
-			fr.invoke(d.instr, d.call, d.fnv, d.args, branch, rt)
+			res = fr.invoke(d.instr, d.call, d.fnv, d.args, branch, rt)
 		} else {
 			switch f := d.call.Value.(type) {
 			case *ssa.Builtin:
-				fr.builtin(d.instr, f, d.call, d.args, branch, rt)
+				res = fr.builtin(d.instr, f, d.call, d.args, branch, rt)
 			case *ssa.Function:
-				fr.callFunc(d.instr, f, nil, d.args, branch, rt)
+				res = fr.callFunc(d.instr, f, nil, d.args, branch, rt)
 			default:
 				if fv, ok := d.fnv.(FuncV); ok && fv.Fn != nil {
-					fr.callFunc(d.instr, fv.Fn, fv.Bindings, d.args, branch, rt)
+					res = fr.callFunc(d.instr, fv.Fn, fv.Bindings, d.args, branch, rt)
 				} else {
-					fr.havocCall(d.instr, "deferred dynamic call", d.args, branch, rt, nil)
+					res = fr.havocCall(d.instr, "deferred dynamic call", d.args, branch, rt, nil)
 				}
 			}
 		}
+		fr.atCall(d.instr, d.call, branch, true, res, rt)
+		fr.preCall = savedPre
 		if rest.Guard == tFalse {
 			*st = *branch
 		} else {
